@@ -241,4 +241,94 @@ theorem detach_find (s s1 : St) (i : Nat) (x : Option Node) (hnd : ∀ a, cntL a
       have hd := removeInL_find i s.detached det' xr hD
       simp [St.find, St.roots, findInL, hf, hd]
 
+/-! ### insertChild / removeChild -/
+theorem insert_core (s s1 : St) (p c : Nat) (x : Node) (r : Option Nat) (hi : Inv s)
+    (hd : s.detach c = (s1, some x)) (hp : 0 < cntL p s.roots) (hx : cnt p x = 0) :
+    SameIds s (s1.update p (Node.mapKids (insertBeforeL x r))) := by
+  obtain ⟨hn, hh, hsome, _⟩ := detach_count s s1 c (some x) hi.1 hd
+  obtain ⟨hid, hcnt⟩ := hsome x rfl
+  have hnd1 : ∀ a, cntL a s1.roots ≤ 1 := fun a => by have := hcnt a; have := hi.1 a; omega
+  have hp1 : 0 < cntL p s1.roots := by have := hcnt p; omega
+  obtain ⟨pn, hpn⟩ := findInL_of_pos p s1.roots hp1
+  refine ⟨by rw [update_next, hn], fun a => ?_⟩
+  have := update_count s1 p (Node.mapKids (insertBeforeL x r)) pn [] (idsOf x) hnd1 hpn
+    (fun b => by
+      have := cnt_mapKids (insertBeforeL x r) pn b
+      rw [cntL_insertBeforeL] at this
+      simp only [count_nil]
+      show cnt b (Node.mapKids (insertBeforeL x r) pn) + 0 = cnt b pn + cnt b x
+      omega) a
+  simp only [count_nil] at this
+  have h2 := hcnt a
+  show cntL a (s1.update p (Node.mapKids (insertBeforeL x r))).roots = cntL a s.roots
+  have h3 : count a (idsOf x) = cnt a x := rfl
+  omega
+
+theorem insertChild_shape (s : St) (p c : Nat) (ref : Option Nat) :
+    (insertChild s p c ref).1 = s ∨
+    ∃ pn cn s1 x r', s.find p = some pn ∧ s.find c = some cn ∧ (c == s.doc.id) = false ∧
+      s.isAncestorOrSelf c p = false ∧ s.detach c = (s1, some x) ∧
+      (insertChild s p c ref).1 = s1.update p (Node.mapKids (insertBeforeL x r')) := by
+  unfold insertChild
+  repeat' split
+  all_goals first
+    | exact Or.inl rfl
+    | (right
+       refine ⟨_, _, _, _, _, by assumption, by assumption, ?_, ?_, by assumption, rfl⟩
+       · simp_all
+       · simp_all)
+
+theorem not_contains_cnt (l : List Nat) (a : Nat) (h : l.contains a = false) : count a l = 0 := by
+  rw [List.count_eq_zero]
+  intro hm
+  have : l.contains a = true := by simpa using hm
+  rw [h] at this; cases this
+
+/-- a successful `insertBefore` / `appendChild` MOVES the node: the forest holds exactly the ids it
+    held before (nothing duplicated, nothing lost); a refused one changes nothing -/
+theorem insertChild_sameIds (s : St) (p c : Nat) (ref : Option Nat) (hi : Inv s) :
+    SameIds s (insertChild s p c ref).1 := by
+  rcases insertChild_shape s p c ref with h | ⟨pn, cn, s1, x, r', hp, hc, hdoc, hanc, hd, heq⟩
+  · rw [h]; exact SameIds.refl s
+  · rw [heq]
+    have hne : s.doc.id ≠ c := by
+      intro he; rw [he] at hdoc; simp at hdoc
+    have hfx := detach_find s s1 c (some x) hi.1 hne hd
+    rw [hc] at hfx
+    simp only [Option.some.injEq] at hfx
+    subst hfx
+    have hx : cnt p cn = 0 := by
+      unfold St.isAncestorOrSelf at hanc
+      rw [hc] at hanc
+      exact not_contains_cnt _ _ hanc
+    exact insert_core s s1 p c cn r' hi hd (findInL_some_mem p s.roots pn hp) hx
+
+theorem removeChild_shape (s : St) (p c : Nat) :
+    (∃ e, removeChild s p c = (s, .err e)) ∨
+    ∃ s1 x, s.detach c = (s1, some x) ∧
+      removeChild s p c = ({ s1 with detached := s1.detached ++ [x] }, .node c) := by
+  unfold removeChild
+  repeat' split
+  all_goals first
+    | exact Or.inl ⟨_, rfl⟩
+    | exact Or.inr ⟨_, _, by assumption, rfl⟩
+
+/-- detaching a node and keeping it as a detached tree holds exactly the same ids -/
+theorem detach_keep_sameIds (s s1 : St) (c : Nat) (x : Node) (hi : Inv s) (hd : s.detach c = (s1, some x)) :
+    SameIds s { s1 with detached := s1.detached ++ [x] } := by
+  obtain ⟨hn, _, hsome, _⟩ := detach_count s s1 c (some x) hi.1 hd
+  obtain ⟨_, hcnt⟩ := hsome x rfl
+  refine ⟨hn, fun a => ?_⟩
+  have := hcnt a
+  simp only [cntL_roots] at this ⊢
+  rw [cntL_append, cntL_cons, cntL_nil]
+  omega
+
+theorem removeChild_sameIds (s : St) (p c : Nat) (hi : Inv s) : SameIds s (removeChild s p c).1 := by
+  rcases removeChild_shape s p c with ⟨e, h⟩ | ⟨s1, x, hd, heq⟩
+  · rw [h]; exact SameIds.refl s
+  · rw [heq]; exact detach_keep_sameIds s s1 c x hi hd
+
+theorem Inv.of_sameIds {s s' : St} (hi : Inv s) (h : SameIds s s') : Inv s' := hi.of_noNew h.noNew
+
 end XmlRs.Dom
